@@ -10,6 +10,9 @@ package bgp
 //@ spec isMsgErr(e error) bool = typeOf(e) == (*MessageError) && e.(*MessageError) != nil
 //@ spec freshMsgErr(e error) bool = typeOf(e) == (*MessageError) && e.(*MessageError) != nil && fresh(e.(*MessageError))
 
+// class of reaction an error calls for (0 = none ... 4 = session reset)
+//@ spec errClass(e error) int = e == nil ? 0 : e.(*MessageError).ErrorHandling
+
 //@ func NewMessageError
 //@   modifies nothing
 //@   ensures freshMsgErr(result)
@@ -122,7 +125,9 @@ package bgp
 //@ func validatePathAttributeFlags
 //@   modifies nothing
 //@ func getErrorHandlingFromPathAttribute
+//@   tag C05 C06
 //@   modifies nothing
+//@   ensures result >= ERROR_HANDLING_ATTRIBUTE_DISCARD && result <= ERROR_HANDLING_SESSION_RESET
 
 //@ func (*PathAttribute).Len
 //@   inline
@@ -306,7 +311,7 @@ package bgp
 //@ func NewIPv4AddressSpecificExtended
 //@   modifies nothing
 //@   ensures ip.Is4() ==> result1 == nil && result0 != nil && fresh(result0)
-//@   ensures result1 == nil ==> result0 != nil
+//@   ensures result1 == nil ==> result0 != nil && fresh(result0)
 //@   ensures result1 != nil ==> result0 == nil
 //@ func NewLinkBandwidthExtended
 //@   modifies nothing
@@ -362,7 +367,7 @@ package bgp
 // UPDATE
 //@ func GetPathAttribute
 //@   modifies nothing
-//@   ensures result1 == nil ==> result0 != nil
+//@   ensures result1 == nil ==> result0 != nil && fresh(result0)
 //@   ensures result1 != nil ==> freshMsgErr(result1)
 //@ func getBGPUpdateAttributes
 //@   modifies nothing
@@ -381,18 +386,24 @@ package bgp
 //@   unverified PathAttributeTunnelEncap PathAttributePmsiTunnel PathAttributeIP6ExtendedCommunities PathAttributeAigp PathAttributeLs PathAttributePrefixSID
 
 //@ func (*MessageError).Stronger
+//@   tag C05 C06
 //@   requires typeOf(err) == (*MessageError) ==> err.(*MessageError) != nil
 //@   pure
 //@   modifies nothing
 //@   ensures result <==> (err == nil || (typeOf(err) == (*MessageError) && e.ErrorHandling > err.(*MessageError).ErrorHandling))
 
 //@ func (*BGPUpdate).DecodeFromBytes
+//@   tag C05 C04 C06
 //@   requires len(data) <= 65535
 //@   modifies msg.*
 //@   loop 0 invariant len(data) >= int(routelen) && len(data) <= 65535
 //@   loop 0 decreases int(routelen)
 //@   loop 1 invariant len(data) >= int(pathlen) && len(data) <= 65535
 //@   loop 1 invariant strongestError == nil || isMsgErr(strongestError)
+// from C06: "gets the strongest reaction any of its errors calls for": per attribute, the error raised for it
+// (if any) is accounted for, and the remembered class never decreases
+//@   loop 1 step e != nil ==> errClass(strongestError) >= errClass(e)
+//@   loop 1 step errClass(strongestError) >= header(errClass(strongestError))
 //@   loop 1 decreases int(pathlen)
 //@   loop 2 invariant restlen <= len(data)
 //@   loop 2 decreases restlen
@@ -417,3 +428,10 @@ package bgp
 //@   pure
 //@   modifies nothing
 //@   ensures result == (a.Type == 2 ? len(a.AS) : (a.Type == 1 ? 1 : 0))
+
+//@ props C16 C03
+//@ interface AsPathParamInterface.GetType
+//@   pure
+// GetAS returns a freshly allocated list and changes nothing the caller can see
+//@ interface AsPathParamInterface.GetAS
+//@   modifies nothing
